@@ -7,7 +7,7 @@ from .. import land
 
 LEVEL = 'exploration'
 ENGINE = 'SEQ'
-TECHNIQUE = 'bounded exhaustive enumeration of call histories (wait/terminate/is_alive/close with timeouts 0 and small, with and without force) over every target behaviour (cooperative, swallowing exceptions, blocked in sleep, holding the interpreter lock in C, SIGSTOPped, finished, not run, idle) and every worker class, on real workers'
+TECHNIQUE = 'bounded exhaustive enumeration of call histories (wait/terminate/is_alive/close with timeouts 0 and small, with and without force) over every target behaviour (cooperative, swallowing exceptions, blocked in sleep, holding the interpreter lock in C, SIGSTOPped, finished, dying of an exception, not run, idle) and every worker class, on real workers'
 LEVEL_TEXT = ('every history up to the depth bound over the call alphabet x behaviours x the six classes is executed on real workers; per-call oracle: returns within 4*timeout+3 s, never raises, a True answer (or is_alive False) is checked against the real state of the child (thread not alive / pid gone or zombie), after the first observation of death every call answers True at once, terminate(force=True) on process/remote kinds leaves the child dead on return')
 LEVEL_NOTE = 'wall-clock bounds are generous (3 s + 4*timeout) and scaled by a measured load factor; thread kinds cannot run the behaviours that would freeze or stop the checker process itself; terminate(force=True) is not issued where its documented last resort is to SIGTERM the calling process'
 
@@ -27,6 +27,7 @@ def behaviours(kind, quick):
         b = ['cooperative', 'stubborn', 'long_sleep', 'gil_hog', 'stopped', 'finished', 'not-run']
     if len(kind) == 2:
         b.append('idle')
+    b += ['dying', 'dying-now']       # the target raises: the calls meet a worker going down on its own (after / without a rendezvous)
     return b
 
 
@@ -34,7 +35,7 @@ def alphabet(kind, beh, quick):
     a = ['w0', 'wt', 't0', 'tt', 'alive']
     if kind in ('P', 'PP'):
         a.append('tf')
-    if kind in ('R', 'PR') and beh in ('finished', 'not-run', 'cooperative', 'idle'):
+    if kind in ('R', 'PR') and beh in ('finished', 'not-run', 'cooperative', 'idle', 'dying', 'dying-now'):
         # on the parent side force=True ends in SIGTERM to the calling process when the forwarding thread does not end
         a.append('tf')
     if not quick:
@@ -56,7 +57,8 @@ def scripts(quick, tmp):
                     n += 1
                     rf = os.path.join(tmp, 'ready.%d' % n)
                     target = {'cooperative': 'cooperative', 'stubborn': 'stubborn', 'long_sleep': 'long_sleep', 'gil_hog': 'gil_hog',
-                              'stopped': 'cooperative', 'finished': 'quick_ret', 'not-run': 'quick_ret', 'idle': 'quick_ret'}[beh]
+                              'stopped': 'cooperative', 'finished': 'quick_ret', 'not-run': 'quick_ret', 'idle': 'quick_ret',
+                              'dying': 'raise_soon', 'dying-now': 'raise_soon'}[beh]
                     create = {'op': 'create', 'var': 'w', 'kind': kind, 'target': target, 'kwargs': {'ready_file': rf}}
                     sc = [create]
                     if beh == 'not-run':
@@ -71,7 +73,8 @@ def scripts(quick, tmp):
                     else:
                         if pers:
                             sc += [{'op': 'call', 'var': 'w', 'method': 'enqueue', 'args': [1]}]
-                        sc += [{'op': 'wait_file', 'path': rf, 'timeout': 10}]
+                        if beh != 'dying-now':
+                            sc += [{'op': 'wait_file', 'path': rf, 'timeout': 10}]
                         if beh == 'stopped':
                             sc += [{'op': 'kill', 'var': 'w', 'sig': 'STOP'}, {'op': 'sleep', 's': 0.05}]
                     npre = len(sc)
